@@ -6,6 +6,7 @@ package main
 // identifiers produced on the same path.
 
 import (
+	"strings"
 	"crypto/sha256"
 	"fmt"
 	"go/token"
@@ -86,7 +87,7 @@ type protoRec struct {
 }
 
 func (c *Ctx) flatten(v value, t types.Type, out *[]*Term, depth int) {
-	if depth > 12 {
+	if depth > 32 {
 		c.unsupported("flatten: value too deep")
 	}
 	switch v := v.(type) {
@@ -177,7 +178,7 @@ func (c *Ctx) flatten(v value, t types.Type, out *[]*Term, depth int) {
 
 // deepCopy clones a pointer graph (trees only; proto messages have no cycles).
 func deepCopy(v value, depth int) value {
-	if depth > 16 {
+	if depth > 40 {
 		panic(pathAbort{"unsupported", "deepCopy too deep"})
 	}
 	switch v := v.(type) {
@@ -301,6 +302,7 @@ func init() {
 			if same {
 				dst := m.v.(*value)
 				src := deepCopy(r.msg, 0).(*value)
+				wireNormalise(src, m.t, 0)
 				store(dst, *src)
 				return iface{}
 			}
@@ -308,6 +310,63 @@ func init() {
 		c.unsupported("proto.Unmarshal of bytes not produced by proto.Marshal on this path (stub the decoder) at %s", c.posStr(pos))
 		return nil
 	}
+}
+
+// wireNormalise gives an unmarshalled message the shape the wire can carry: proto3 does not put an empty
+// repeated field or an empty bytes field without explicit presence on the wire, so after a real
+// Marshal/Unmarshal trip those come back as nil (decoders that test `!= nil` see "absent"). Only bytes fields
+// declared `optional` (struct tag "...,proto3,oneof") keep the difference between empty and absent.
+func wireNormalise(p *value, t types.Type, depth int) {
+	if p == nil || depth > 40 {
+		return
+	}
+	switch u := t.Underlying().(type) {
+	case *types.Pointer:
+		if pv, ok := (*p).(*value); ok && pv != nil {
+			wireNormalise(pv, u.Elem(), depth+1)
+		}
+	case *types.Struct:
+		sv, ok := (*p).(structure)
+		if !ok {
+			return
+		}
+		for i := 0; i < u.NumFields(); i++ {
+			f := u.Field(i)
+			if n := f.Name(); n == "state" || n == "sizeCache" || n == "unknownFields" {
+				continue
+			}
+			if sl, isSlice := sv[i].([]value); isSlice {
+				if sl != nil && len(sl) == 0 && !(isByteSliceT(f.Type()) && strings.Contains(u.Tag(i), "oneof")) {
+					sv[i] = []value(nil)
+					continue
+				}
+				if st, ok := f.Type().Underlying().(*types.Slice); ok && !isByteSliceT(f.Type()) {
+					for k := range sl {
+						wireNormalise(&sl[k], st.Elem(), depth+1)
+					}
+				}
+				continue
+			}
+			wireNormalise(&sv[i], f.Type(), depth+1)
+		}
+	case *types.Interface:
+		if iv, ok := (*p).(iface); ok && iv.t != nil {
+			if pv, ok := iv.v.(*value); ok && pv != nil {
+				if pt, ok := iv.t.Underlying().(*types.Pointer); ok {
+					wireNormalise(pv, pt.Elem(), depth+1)
+				}
+			}
+		}
+	}
+}
+
+func isByteSliceT(t types.Type) bool {
+	s, ok := t.Underlying().(*types.Slice)
+	if !ok {
+		return false
+	}
+	b, ok := s.Elem().Underlying().(*types.Basic)
+	return ok && b.Kind() == types.Uint8
 }
 
 var _ = fmt.Sprintf
